@@ -274,14 +274,30 @@ def dedup : List String → List String
 def iselDims (dd : String) (idims : List String) (dims : List String) : List String :=
   dedup (dims.flatMap fun x => if x = dd then idims else [x])
 
+/-- The subset of the dataset that carries one group: `utils.extract_vars(dataset, names)`
+minus the one-dimensional coordinates of `dd`.  It holds every xarray coordinate (except
+those), the group's variables and, with `kb = true` (`keep_bounds=True`, the code as
+written), every data variable named by the `bounds` attribute of a coordinate or of a group
+member. -/
+def inSubset (kb : Bool) (dd : String) (names : List String) (vars : List Var) (v : Var) : Bool :=
+  if v.isCoord then !(v.dims == [dd])
+  else names.contains v.name ||
+    (kb && vars.any (fun w => (w.isCoord || names.contains w.name) && w.bounds == some v.name))
+
+/-- the floor index array of a group, as a function of the named index: computed from the
+example variable `ex` at non-spatial index 0 -/
+def floorIdx (sz : String → Nat) (nsdims : List String) (dd : String) (ex : Var) : Env → Nat :=
+  fun env => floorIndex (column sz ex dd (zeroNs nsdims env))
+
+/-- `variable.isel({dd: ocean_floor_indexes})` (a variable without `dd` is left alone) -/
+def floorVar (sz : String → Nat) (nsdims : List String) (dd : String) (ex : Var) (v : Var) : Var :=
+  if dd ∈ v.dims then
+    iselVar sz dd (floorIdx sz nsdims dd ex) (iselDims dd (spatialOf nsdims dd ex) v.dims) v
+  else v
+
 /-- One group of one depth dimension: the floor index array comes from the first variable
 of the group at non-spatial index 0; the subset of the dataset that carries the group is
-indexed with it along `dd`; the result is merged in front of the rest.
-
-The subset (`utils.extract_vars(dataset, names)` minus the one-dimensional coordinates of
-`dd`) holds the group's variables and every xarray coordinate; with `kb = true`
-(`keep_bounds=True`, the code as written) it additionally holds every data variable named
-by the `bounds` attribute of a coordinate or of a group member. -/
+indexed with it along `dd`; the result is merged in front of the rest. -/
 def floorGroup (kb : Bool) (nsdims : List String) (dd : String) (ds : Dataset) (names : List String) :
     Option Dataset :=
   match names with
@@ -292,15 +308,9 @@ def floorGroup (kb : Bool) (nsdims : List String) (dd : String) (ds : Dataset) (
     | some ex =>
       if dd ∉ ex.dims then none                     -- cumsum over a missing dimension raises
       else
-        let idims := ex.dims.filter fun x => x ≠ dd ∧ x ∉ nsdims
-        let I : Env → Nat := fun env => floorIndex (column ds.sz ex dd (zeroNs nsdims env))
-        let inSubset : Var → Bool := fun v =>
-          if v.isCoord then !(v.dims == [dd])
-          else names.contains v.name ||
-            (kb && ds.vars.any (fun w => (w.isCoord || names.contains w.name) && w.bounds == some v.name))
-        let idx : Var → Var := fun v =>
-          if dd ∈ v.dims then iselVar ds.sz dd I (iselDims dd idims v.dims) v else v
-        some { ds with vars := ((ds.vars.filter inSubset).map idx) ++ ds.vars.filter (fun v => !inSubset v) }
+        some { ds with vars :=
+          ((ds.vars.filter (inSubset kb dd names ds.vars)).map (floorVar ds.sz nsdims dd ex))
+            ++ ds.vars.filter (fun v => !inSubset kb dd names ds.vars v) }
 
 def floorGroups (kb : Bool) (nsdims : List String) (dd : String) :
     Dataset → List (List String × List String) → Option Dataset
